@@ -304,6 +304,44 @@ def correspond(ctx, scale):
                 if problems:
                     failures.append({'key': f'{cfg["name"]}:ragged-compact:' + problems[0].split(' ')[0], 'what': f'{cfg["name"]}: masked ragged batch (lens {lens}) differs from the call on the concatenated valid tokens in {problems}',
                                      'case': dict(name=cfg['name'], lens=lens)})
+        # (7) non-finite padding (inf / nan: uninitialised memory, an overflowed upstream activation) and the BACKWARD pass: outputs at valid positions,
+        # every loss term, the input gradient at valid positions and every parameter gradient are those of the zero-padded call, and finite
+        if cfg['kind'] in ('vq', 'rvq') and 'stochastic' not in cfg['name'] and 'kmeans' not in cfg['name'] and 'expiry' not in cfg['name']:
+            base = cfg['mk']()
+            if any(True for _ in base.parameters()):
+                b, n = 3, 4
+                m = torch.arange(n)[None, :] < torch.tensor([n, 2, 1])[:, None]
+                x = torch.randn(b, n, cfg['dim'])
+                ref = None
+                for fill in (0.0, float('inf'), float('nan'), 3e38):
+                    mod_f = copy.deepcopy(base)
+                    mod_f.train()
+                    xf = torch.where(m[..., None], x, torch.full_like(x, fill)).requires_grad_(True)
+                    torch.manual_seed(7)
+                    random.seed(7)
+                    try:
+                        rf = mod_f(xf, mask=m)
+                        lossf = rf[2].sum()
+                        if lossf.requires_grad:
+                            lossf.backward()
+                    except Exception as ex:
+                        failures.append({'key': f'{cfg["name"]}:nonfinite-padding:exception:{type(ex).__name__}', 'what': f'{cfg["name"]} padding {fill}: {ex!r}', 'case': dict(name=cfg['name'], fill=str(fill))})
+                        break
+                    obs = {'output': rf[0].detach()[m], 'loss': rf[2].detach()}
+                    if xf.grad is not None:
+                        obs['input-gradient'] = xf.grad[m]
+                    for pn, pp in mod_f.named_parameters():
+                        if pp.grad is not None:
+                            obs['grad:' + pn] = pp.grad.detach().clone()
+                    evaluations += 1
+                    dist['nonfinite_padding_backward'] = dist.get('nonfinite_padding_backward', 0) + 1
+                    if ref is None:
+                        ref = obs
+                        continue
+                    for k_, v_ in obs.items():
+                        if k_ in ref and not (bool(torch.isfinite(v_).all()) and torch.allclose(v_, ref[k_], atol=1e-6, rtol=1e-5)):
+                            failures.append({'key': f'{cfg["name"]}:nonfinite-padding:{k_.split(":")[0]}', 'what': f'{cfg["name"]}: with padding value {fill} the {k_} differs from the zero-padded call '
+                                             f'({"non-finite" if not bool(torch.isfinite(v_).all()) else "different values"})', 'case': dict(name=cfg['name'], fill=str(fill))})
         if len(samples) < 4:
             samples.append(dict(config=cfg['name']))
     bad, broken = core.run_cases(ctx, 'c09', HEADER, cases, per_file=40)
